@@ -78,6 +78,20 @@ def _check_chunk(jobs):
                 mat.write_text(ipath, inp)
             meta_ok = lambda out: (arr_eq(inp["locs"], out["location"]) and arr_eq(inp["lat"], out["lat"]) and arr_eq(inp["lon"], out["lon"])
                                    and arr_eq(inp["elev"], out["altitude"]))
+            if c["kind"] in ("acc", "exp", "win") and ipath.endswith(".txt"):
+                # text2nc: the converted file carries the same times, lead times, location metadata and values
+                cpath = os.path.join(wd, "converted.nc")
+                if os.path.exists(cpath):
+                    os.remove(cpath)
+                run_script("text2nc", [ipath, cpath])
+                n += 1
+                conv = read_nc(cpath)
+                if not (arr_eq(inp["times"], conv["time"], tol=0) and arr_eq(inp["leads"], conv["leadtime"]) and meta_ok(conv)):
+                    bad("text2nc:metadata", "text2nc on times %r leads %r: times, lead times or location metadata not preserved (times %r, lead times %r)"
+                        % (inp["times"], inp["leads"], np.asarray(conv["time"]).reshape(-1).tolist(), np.asarray(conv["leadtime"]).reshape(-1).tolist()))
+                if not (arr_eq(inp["obs"], conv["obs"]) and arr_eq(inp["fcst"], conv["fcst"])):
+                    bad("text2nc:values", "text2nc on obs %r fcst %r: observed obs %r fcst %r" % (inp["obs"], inp["fcst"],
+                        np.asarray(conv["obs"]).reshape(-1).tolist(), np.asarray(conv["fcst"]).reshape(-1).tolist()))
             if c["kind"] == "win":
                 argv = [ipath, opath, "-r", repr(float(num(c["thr"]))), "-b", c["bt"]]
                 run_script("window", argv)
@@ -88,7 +102,7 @@ def _check_chunk(jobs):
                     bad("window:obs", "%s: expected obs windows %r observed %r" % (lab, [num(x) for x in c["eobs"]], np.asarray(out["obs"]).reshape(-1).tolist()))
                 if not arr_eq(c["efcst"], out["fcst"]):
                     bad("window:fcst", "%s: expected fcst windows %r observed %r" % (lab, [num(x) for x in c["efcst"]], np.asarray(out["fcst"]).reshape(-1).tolist()))
-                if not (arr_eq(inp["times"], out["time"]) and arr_eq(inp["leads"], out["leadtime"]) and meta_ok(out)):
+                if not (arr_eq(inp["times"], out["time"], tol=0) and arr_eq(inp["leads"], out["leadtime"]) and meta_ok(out)):
                     bad("window:metadata", "%s: times, lead times or location metadata not preserved" % lab)
             elif c["kind"] == "acc":
                 argv = [ipath, opath] + (["-w", str(c["w"])] if c["w"] > 0 else []) + (["-i"] if c["ignore"] else []) + ["-x", c["axis"]]
@@ -111,7 +125,7 @@ def _check_chunk(jobs):
                     bad("accumulate:obs", "%s: expected obs %r observed %r" % (lab, [num(x) for x in c["eobs"]], np.asarray(out["obs"]).reshape(-1).tolist()))
                 if not arr_eq(c["efcst"], out["fcst"]):
                     bad("accumulate:fcst", "%s: expected fcst %r observed %r" % (lab, [num(x) for x in c["efcst"]], np.asarray(out["fcst"]).reshape(-1).tolist()))
-                if not (arr_eq(c["times"], out["time"]) and arr_eq(c["leads"], out["leadtime"]) and meta_ok(out)):
+                if not (arr_eq(c["times"], out["time"], tol=0) and arr_eq(c["leads"], out["leadtime"]) and meta_ok(out)):
                     bad("accumulate:metadata", "%s: times / lead times / location metadata not preserved" % lab)
             elif c["kind"] == "ens":
                 ths = ",".join(mat.fmt(num(t)) for t in c["thresholds"])
@@ -151,7 +165,7 @@ def _check_chunk(jobs):
                         bad(site, "%s: expected PIT %r observed %r" % (lab, want, pit))
                 if not arr_eq(c["thresholds"], out["threshold"]) or not arr_eq(c["levels"], out["quantile"]):
                     bad("ens2prob:levels", "%s: threshold / quantile variables %r %r do not list the requested values" % (lab, out["threshold"].tolist(), out["quantile"].tolist()))
-                if not (arr_eq(inp["times"], out["time"]) and arr_eq(inp["leads"], out["leadtime"]) and meta_ok(out)
+                if not (arr_eq(inp["times"], out["time"], tol=0) and arr_eq(inp["leads"], out["leadtime"]) and meta_ok(out)
                         and arr_eq(inp["obs"], out["obs"]) and arr_eq(inp["fcst"], out["fcst"])):
                     bad("ens2prob:metadata", "%s: dimensions, location metadata or obs/fcst not preserved" % lab)
             else:
